@@ -454,6 +454,24 @@ func (e *IsMulti) Error() string {
 func (e *IsMulti) Unwrap() []error      { return e.Es }
 func (e *IsMulti) Is(target error) bool { return target == error(Sentinel) }
 
+// AsMulti: a multi-cause type whose own As method declines every target
+// (the search must then go on into its branches, as the standard
+// library's does).
+type AsMulti struct {
+	Msg string
+	Es  []error
+}
+
+func (e *AsMulti) Error() string {
+	s := e.Msg
+	for _, c := range e.Es {
+		s += " / " + c.Error()
+	}
+	return s
+}
+func (e *AsMulti) Unwrap() []error     { return e.Es }
+func (e *AsMulti) As(interface{}) bool { return false }
+
 // ---------- registration ----------
 
 func key(e error) errbase.TypeKey { return errbase.GetTypeKey(e) }
